@@ -132,6 +132,7 @@ def explore(ctx):
             ctx.sample({"skip": meta[0]["skipExportGlyphs"], "level": meta[0]["level"], "glyphs": meta[0]["font"]["glyphs"][:2]})
     interpolatable_section(ctx)
     features_section(ctx)
+    script_section(ctx)
     layer_section(ctx)
     instance_section(ctx)
 
@@ -527,6 +528,65 @@ def features_section(ctx):
                         bad = bad or "attachment of %s to %s under %s: %r -> %r" % (y, x, tag, la.mark_attach(ma, x, y), lb.mark_attach(mb, x, y))
         if bad:
             ctx.spec_failure(case, "generated positioning between remaining glyphs is affected by skipping %r: %s" % (skip, bad))
+
+
+def script_section(ctx):
+    """a non-exported glyph must not leave its SCRIPT behind: a skipped glyph carries the only code point of its script
+    (Syriac / Thaana) while remaining glyphs whose Script_Extensions include that script (U+060C ARABIC COMMA, U+061F) are
+    kerned.  The font compiled with the skip list has the script list and the pair values of the same font from which the
+    glyph was deleted beforehand"""
+    import ufo2ft
+    from fontTools.ttLib import TTFont
+    from harness.otl import Layout
+    from harness import dsgen
+    SQ = [[(Fr(50), Fr(0), "line"), (Fr(250), Fr(0), "line"), (Fr(250), Fr(300), "line"), (Fr(50), Fr(300), "line")]]
+    for i in range(ctx.budget(6, 16)):
+        lib = ["ufoLib2", "defcon"][i % 2]
+        mode = ["ttf-argument", "otf-libkey", "variable-designspace-lib", "otf-argument", "ttf-libkey", "variable-designspace-lib"][i % 6]
+        extra = [("alaph-sy", 0x710), ("haa-thaana", 0x780)][(i // 2) % 2]
+        base = [("alef-ar", 0x627), ("beh-ar", 0x628), ("comma-ar", 0x60C), ("question-ar", 0x61F), extra]
+        def desc_of(names):
+            return {"glyphs": [{"name": n, "unicodes": [u], "width": 500, "contours": list(SQ), "components": [], "anchors": []} for n, u in names],
+                    "groups": {}, "kerning": {("comma-ar", "beh-ar"): Fr(-30), ("alef-ar", "question-ar"): Fr(-20), ("beh-ar", "alef-ar"): Fr(14)},
+                    "lib": {}, "features": "", "glyphOrder": [n for n, _ in names]}
+        full, pruned = desc_of(base), desc_of(base[:-1])
+        skip = [extra[0]]
+        case = {"font": jsonable(full), "skipExportGlyphs": skip, "lib": lib, "mode": mode, "level": "scripts of generated kerning"}
+        ctx.count(); ctx.klass("scripts:" + mode); ctx.nontriv(("sks", i, ctx.scale))
+        outs = []
+        try:
+            for desc, with_skip in ((full, True), (pruned, False)):
+                if mode.startswith("variable"):
+                    r2 = __import__("random").Random(i)
+                    ds, ufos = dsgen.make_designspace(r2, [desc, dsgen.perturb(r2, desc, 1)], lib, instances=False)
+                    if with_skip:
+                        ds.lib["public.skipExportGlyphs"] = list(skip)
+                    tt = ufo2ft.compileVariableTTF(ds, useProductionNames=False, variableFeatures=(i // 6) % 2 == 0)
+                else:
+                    f = build_font(desc, lib)
+                    kw = {"useProductionNames": False}
+                    if with_skip and mode.endswith("libkey"):
+                        f.lib["public.skipExportGlyphs"] = list(skip)
+                    elif with_skip:
+                        kw["skipExportGlyphs"] = list(skip)
+                    tt = (ufo2ft.compileTTF if mode.startswith("ttf") else ufo2ft.compileOTF)(f, **kw)
+                buf = io.BytesIO(); tt.save(buf); buf.seek(0); outs.append(TTFont(buf))
+        except Exception as e:
+            ctx.spec_failure(case, "compile raised %s: %s\n%s" % (type(e).__name__, e, traceback.format_exc()[-1200:]))
+            continue
+        la, lb = Layout(outs[0]), Layout(outs[1])
+        if sorted(la.scripts()) != sorted(lb.scripts()):
+            ctx.spec_failure(dict(case, scripts_with_skip_list=sorted(la.scripts()), scripts_with_glyph_deleted=sorted(lb.scripts())),
+                             "GPOS scripts with %r skipped: %r; with the glyph deleted from the source beforehand: %r" % (
+                                 skip, sorted(la.scripts()), sorted(lb.scripts())))
+            continue
+        remaining = [n for n, _ in base[:-1]]
+        for tag in la.scripts():
+            ka, kb = la.lookups_for(tag, {"kern", "dist"}), lb.lookups_for(tag, {"kern", "dist"})
+            bad = [(x, y) for x in remaining for y in remaining if la.pair_adjust(ka, x, y)[:3] != lb.pair_adjust(kb, x, y)[:3]]
+            if bad:
+                ctx.spec_failure(dict(case, script=tag, pairs=bad[:4]), "kerning of remaining pairs under %s differs from the font with the glyph deleted beforehand: %r" % (tag, bad[:4]))
+                break
 
 
 def compare_binaries(ctx, case, desc, skip, lib, i):
